@@ -13,6 +13,10 @@ Tie, on every run and against the object code of /repo's current tree:
           whose info file carries the argspec; the real `uftrace replay` (read_task_args +
           get_argspec_string) prints it, the real `uftrace dump` prints the raw values;
   parser  the spec strings go through the real parse_argspec (harness/c/c09_harness.c);
+  abandoned  calls marked "abandoned" are closed without a return value: the same harness with
+          UFTRACE_ESTIMATE_RETURN (libmcount closes the open call at the next entry through
+          mcount_exit_filter_record(.., NULL), the path of exception unwinding and pthread_exit);
+          the EXIT record must not carry a payload, no reader may show a return value;
   Coq     computes the model's buffer image, stream and replay text for the same inputs and compares
           (mismatch), and applies the executable property checker ok_call to the implementation's
           text (violations).
@@ -51,6 +55,7 @@ M64 = (1 << 64) - 1
 #   actual  [aval per spec]   ractual [aval per rspec]
 #       aval = ["int", token] | ["str", i] | ["null"] | ["bad"] | ["sym", k] | ["flt", bits] | ["struct"]
 #   tags    [boundary names]
+#   abandoned  true: the call is closed without a return value (see the module text)
 def ALIGN(x, a):
     return (x + a - 1) // a * a
 
@@ -750,7 +755,30 @@ def witness_neg32():
 
 
 # repaired by fix: commits (known-findings.txt `fixed:` lines): ordinary cases now, judged like every other case
-REGRESSIONS = [witness_len98, witness_c64, witness_overflow, witness_overflow_many]
+def abandoned_check():
+    # check(3, 100) throws: -A check@arg1/i64,arg2/i64 -R check@retval/i64; the call is closed without a return value
+    return {"specs": ["arg1/i64", "arg2/i64"], "rspecs": ["retval/i64"], "regs": [3, 100, 0, 0, 0, 0], "stack": [],
+            "ret": [0, 0], "strings": {}, "objs": {}, "actual": [["int", 3, ["reg", 0]], ["int", 100, ["reg", 1]]],
+            "ractual": [["int", 0, ["ret", 0]]], "tags": ["abandoned", "regression=abandoned-check"], "abandoned": True}
+
+
+def abandoned_str():
+    # a string argument and a string return value: the buffer left by the entry is not a return value
+    return {"specs": ["arg1/s", "arg2/x16"], "rspecs": ["retval/s"], "regs": ["@S0", 0xbeef, 0, 0, 0, 0], "stack": [],
+            "ret": ["@S0", 0], "strings": {0: b"left behind by the entry".hex()}, "objs": {},
+            "actual": [["str", 0], ["int", 0xbeef, ["reg", 1]]], "ractual": [["str", 0]],
+            "tags": ["abandoned", "regression=abandoned-str"], "abandoned": True}
+
+
+def abandoned_retonly():
+    # only a return value spec: the argument buffer of the frame holds whatever an earlier call left there
+    return {"specs": [], "rspecs": ["retval/x64"], "regs": [1, 2, 3, 4, 5, 6], "stack": [], "ret": [7, 0],
+            "strings": {}, "objs": {}, "actual": [], "ractual": [["int", 7, ["ret", 0]]],
+            "tags": ["abandoned", "regression=abandoned-retonly"], "abandoned": True}
+
+
+REGRESSIONS = [witness_len98, witness_c64, witness_overflow, witness_overflow_many, abandoned_check, abandoned_str,
+               abandoned_retonly]
 # still present, listed in known-findings.txt: the generators stay out of the class, this is the witness
 WITNESSES = [("auto-neg32", witness_neg32)]
 
@@ -888,8 +916,19 @@ class Impl:
         """fills case["obs"] (implementation's observations) and case["env"] (resolved addresses)"""
         assert len(cases) <= 31
         self.nrun += 1
-        lines = ["E 0 1000", "E 0 1002", "X 1004", "X 1010", "ADDR"]
-        expect = ["E", "E", "X", "X", "ADDR"]
+        # abandoned calls (closed without a return value): libmcount in --estimate-return mode closes every open
+        # call at the next entry through mcount_exit_filter_record(.., NULL) - the path exception unwinding and
+        # pthread_exit take as well.  No exit hook runs; the sentinel call follows as a sibling.
+        ab = bool(cases[0].get("abandoned"))
+        assert all(bool(c.get("abandoned")) == ab for c in cases)
+        self.abandoned = ab
+        if ab:
+            lines = ["E 0 1000", "E 0 1002", "E 0 1004", "ADDR"]
+            expect = ["E", "E", "E", "ADDR"]
+        else:
+            lines = ["E 0 1000", "E 0 1002", "X 1004", "X 1010", "ADDR"]
+            expect = ["E", "E", "X", "X", "ADDR"]
+        nent = 3                                # entries so far in the abandoned script (= index of the next fake frame)
         sbase = 0
         argenv, retenv = [], []
         for ci, c in enumerate(cases):
@@ -922,6 +961,18 @@ class Impl:
             lines.append("SPECS %d" % k)
             expect.append("SPECS")
             t0 = T_BASE + 1000 * (ci + 1)
+            if ab:
+                # exit of the call = middle of its entry and the next entry; the sentinel's exit likewise
+                tn = T_BASE + 1000 * (ci + 2)
+                c["times"] = [t0, (t0 + t0 + 10) // 2, t0 + 10, (t0 + 10 + tn) // 2]
+                lines += ["FRAMESET %d 0 %d" % (nent + 1, SENTINEL_RET),
+                          "ARGFILL -1 %d %d" % (FILL, WINDOW),
+                          "EA %d %d %s" % (k, t0, " ".join(tok(w) for w in c["regs"] + c["stack"])),
+                          "ARGDUMP -1 %d" % WINDOW,
+                          "E 0 %d" % (t0 + 10)]
+                expect += ["FRAMESET", "ARGFILL", "E", "ARGDUMP", "E"]
+                nent += 2
+                continue
             c["times"] = [t0, t0 + 10, t0 + 20, t0 + 30]
             lines += ["FRAMESET 1 0 %d" % SENTINEL_RET,     # the word behind the 23 stack words of frame 0
                       "ARGFILL 0 %d %d" % (FILL, WINDOW),
@@ -933,9 +984,16 @@ class Impl:
                       "ARGDUMP 0 %d" % WINDOW]
             expect += ["FRAMESET", "ARGFILL", "E", "E", "X", "ARGDUMP", "ARGFILL", "X", "ARGDUMP"]
         tend = T_BASE + 1000 * (len(cases) + 2)
-        lines += ["E 0 %d" % tend, "X %d" % (tend + 10), "DUMPRAW"]
-        expect += ["E", "X", "DUMPRAW"]
+        if ab:
+            assert tend == T_BASE + 1000 * (len(cases) + 1) + 1000
+            lines += ["E 0 %d" % (T_BASE + 1000 * (len(cases) + 1)), "E 0 %d" % tend, "DUMPRAW"]
+            expect += ["E", "E", "DUMPRAW"]
+        else:
+            lines += ["E 0 %d" % tend, "X %d" % (tend + 10), "DUMPRAW"]
+            expect += ["E", "X", "DUMPRAW"]
         env = {"UFTRACE_PATTERN": "regex"}      # a plain name stays an exact match, "^(f3)$" is a regex match
+        if ab:
+            env["UFTRACE_ESTIMATE_RETURN"] = "1"
         if argenv:
             env["UFTRACE_ARGUMENT"] = ";".join(argenv)
         if retenv:
@@ -944,7 +1002,7 @@ class Impl:
         if len(out) != len(expect) or any(not o.startswith(e) for o, e in zip(out, expect)):
             raise RuntimeError("mc_harness output out of step: %r ... stderr=%s" % (out[:8], err[-400:]))
         it = iter(out)
-        for _ in range(4):
+        for _ in range(3 if ab else 4):
             next(it)
         a = next(it).split()
         f0, bad, brk, edge = int(a[1]), int(a[2]), int(a[3]), int(a[4])
@@ -969,6 +1027,16 @@ class Impl:
             c["prspecs"] = [m for m in c["mspecs"] if m["idx"] == 0]
             c["actual"] = [derive_actual(c, m) for m in c["pspecs"]]
             c["ractual"] = [derive_actual(c, m) for m in c["prspecs"]]
+            if ab:
+                next(it), next(it)
+                e = next(it).split()
+                d1 = next(it).split()
+                next(it)
+                if e[1] != "0":
+                    raise RuntimeError("entry of f%d was not hooked: %r" % (c["k"], e))
+                c["obs"] = {"flags_entry": int(d1[1]), "img_entry": bytes.fromhex(d1[2]).rstrip(bytes([FILL])),
+                            "flags_exit": 0, "img_exit": b""}
+                continue
             next(it), next(it)
             e = next(it).split()
             next(it), next(it)
@@ -983,6 +1051,8 @@ class Impl:
         for _ in range(2):
             next(it)
         raw = bytes.fromhex((next(it).split() + [""])[1])
+        if ab:
+            tend = T_BASE + 1000 * (len(cases) + 1)     # the entry that closes the last sentinel
         # split the stream at the (unique) entry times of the calls
         pos = []
         for c in cases:
@@ -1017,11 +1087,27 @@ class Impl:
         # skeleton: "fn00() {\n  fn00();\n}\n" then per call  NAME ARGS " {\n  fn00();\n}" RET "\n", then "fn00();\n"
         head = b"fn00() {\n  fn00();\n}\n"
         mark = b" {\n  fn00();\n}"
+        ab = getattr(self, "abandoned", False)
+        if ab:
+            # abandoned calls:  "fn00();" x 3, then per call  NAME ARGS ";\nfn00();\n", then "fn00();\n".
+            # Whatever stands between the name and the ";" is taken as the argument text: there must be no " = value"
+            head = b"fn00();\nfn00();\nfn00();\n"
         ok = p.returncode == 0 and out.startswith(head)
         cur = len(head)
         for i, c in enumerate(cases):
             c["obs"]["args_text"] = c["obs"]["ret_text"] = None
             if not ok:
+                continue
+            if ab:
+                name = b"fn%02d" % c["k"]
+                nxt = b";\nfn00();\n" + ((b"fn%02d(" % cases[i + 1]["k"]) if i + 1 < len(cases) else b"fn00();\n")
+                e = out.find(nxt, cur)
+                if not out.startswith(name, cur) or e < 0:
+                    ok = False
+                    continue
+                c["obs"]["args_text"] = out[cur + len(name):e]
+                c["obs"]["ret_text"] = b""
+                cur = e + len(b";\nfn00();\n")
                 continue
             name = b"fn%02d" % c["k"]
             if not out.startswith(name, cur):
@@ -1068,14 +1154,21 @@ class Impl:
         the call are missing / out of order (then self.last_script keeps the output)"""
         lines = [l for l in p.stdout.decode("latin-1").split("\n") if l[:2] in ("E ", "X ")]
         head = ["E fn00 0 -", "E fn00 1 -", "X fn00 1 -", "X fn00 0 -"]
-        good = p.returncode == 0 and lines[:4] == head
-        cur = 4
+        ab = getattr(self, "abandoned", False)
+        if ab:
+            head = ["E fn00 0 -", "X fn00 0 -"] * 3
+        good = p.returncode == 0 and lines[:len(head)] == head
+        cur = len(head)
         for c in cases:
             c["obs"][lang] = None
             if not good:
                 continue
             name = "fn%02d" % c["k"]
             blk = lines[cur:cur + 4]
+            if ab:
+                # entry, exit, then the sentinel as a sibling
+                blk = blk[:1] + blk[2:] + blk[1:2] if len(blk) == 4 and blk[2:] == ["E fn00 0 -", "X fn00 0 -"] else []
+                blk = [b if i in (0, 3) else b.replace(" 0 -", " 1 -") for i, b in enumerate(blk)]
             if len(blk) < 4 or not blk[0].startswith("E %s 0 " % name) or blk[1:3] != ["E fn00 1 -", "X fn00 1 -"] \
                     or not blk[3].startswith("X %s 0 " % name):
                 good = False
@@ -1109,7 +1202,7 @@ class Impl:
                                      for m in re.finditer(rb"\n  args\[(\d+)\] ([a-zA-Z])(\d+): 0x([0-9a-f]+)(?=\n)", seg_a)]
             # strings as dump prints them (raw bytes up to the next item of the same record)
             c["obs"]["dump_strs"] = {}
-            for m in re.finditer(rb"\n  args\[(\d+)\] (?:str|std::string): (.*?)(?=\n  args\[\d+\] |\n\d+\.\d{9} +\d+: \[|\Z)", seg_a, re.S):
+            for m in re.finditer(rb"\n  args\[(\d+)\] (?:str|std::string): (.*?)(?=\n  args\[\d+\] |\n\d+\.\d{9} +\d+: (?:\[|\Z)|\Z)", seg_a, re.S):
                 c["obs"]["dump_strs"][int(m.group(1))] = m.group(2)
             c["obs"]["dump_ret"] = []
             for i, m in enumerate(re.finditer(rb"\n  retval ([^\n]*)", seg_r)):
@@ -1222,10 +1315,11 @@ def coq_case(c):
     f0 = c["env"]["f0"]
     t = c["times"]
     call = ("{| c_specs := [%s]; c_inp := i; c_fill := %d; c_addr := %s; c_t0 := %s; c_t1 := %s; c_t2 := %s; "
-            "c_t3 := %s; c_child := %s; c_has_args := %s; c_has_ret := %s |}"
+            "c_t3 := %s; c_child := %s; c_has_args := %s; c_has_ret := %s; c_captured := %s |}"
             % ("; ".join(coq_spec(s) for s in specs), FILL, num(f0 + 256 * c["k"] + 4), num(t[0]), num(t[1]), num(t[2]),
                num(t[3]), num(f0 + 4),
-               coq.coq_bool(bool(c["tflags"] & 64)), coq.coq_bool(bool(c["tflags"] & 256))))
+               coq.coq_bool(bool(c["tflags"] & 64)), coq.coq_bool(bool(c["tflags"] & 256)),
+               coq.coq_bool(not c.get("abandoned"))))
     o = c["obs"]
     imgs = []
     for img, flag, which in ((o["img_entry"], o["flags_entry"] & FL_ARGUMENT, "first"),
@@ -1313,9 +1407,11 @@ def model_detail(ctx, c, name="detail"):
 def judge_dump(c):
     """`uftrace dump` prints the low spec->size bytes of every scalar (all return value specs too): they must be
     the bytes passed.  returns None or a description of the first wrong value"""
+    if c.get("abandoned") and c["obs"].get("dump_ret"):
+        return "the call was closed without a return value, dump shows one: %r" % (c["obs"]["dump_ret"],)
     for pspecs, actual, got, what in ((c["pspecs"], c["actual"], c["obs"].get("dump_args"), "args"),
                                       (c["prspecs"], c["ractual"], c["obs"].get("dump_ret"), "retval")):
-        if got is None or not pspecs:
+        if got is None or not pspecs or (what == "retval" and c.get("abandoned")):
             continue
         if not fits(c, pspecs, actual):
             continue
@@ -1843,6 +1939,121 @@ def e2e_pointers(ctx, impl):
                                                  "record_options": opts}, True)
 
 
+E2E_THROW_PROG = r"""// check(n, bias, why) returns twice(n) + bias, but throws for n == %(bad)d: that call never returns a value
+#include <cstdio>
+#include <stdexcept>
+extern "C" {
+__attribute__((noinline)) long twice(long n) { asm volatile("" ::: "memory"); return n * 2; }
+__attribute__((noinline)) long check(long n, long bias, const char *why)
+{
+	if (n == %(bad)d)
+		throw std::runtime_error(why);
+	return twice(n) + bias;
+}
+}
+int main()
+{
+	long sum = 0;
+	for (long i = 1; i <= 5; i++) {
+		try { sum += check(i, %(bias)d, "round"); }
+		catch (std::exception &e) { sum -= 1; }
+	}
+	printf("sum %%ld\n", sum);
+	return 0;
+}
+"""
+E2E_EST_PROG = r"""// --estimate-return: no exit hook runs, every call is closed by libmcount at the next entry
+#include <stdio.h>
+__attribute__((noinline)) long value(long n, long k, const char *s) { asm volatile("" ::: "memory"); return n * k; }
+int main(void)
+{
+	long sum = 0;
+	for (long i = 1; i <= 3; i++)
+		sum += value(i, %(k)d, "est");
+	printf("sum %%ld\n", sum);
+	return 0;
+}
+"""
+E2E_PEXIT_PROG = r"""// a thread that ends in pthread_exit() inside nested traced calls: none of them returns a value
+#include <pthread.h>
+#include <stdio.h>
+__attribute__((noinline)) long leave(long code, const char *why) { asm volatile("" ::: "memory"); pthread_exit((void *)code); return code; }
+__attribute__((noinline)) long work(long id, long arg) { return leave(id + arg, "bye") + 1; }
+static void *thr(void *p) { return (void *)work((long)p, %(arg)d); }
+__attribute__((noinline)) long after(long v) { asm volatile("" ::: "memory"); return v + 1; }
+int main(void)
+{
+	pthread_t t;
+	void *r;
+	pthread_create(&t, NULL, thr, (void *)5L);
+	pthread_join(t, &r);
+	printf("r %%ld\n", after((long)r));
+	return 0;
+}
+"""
+
+
+def e2e_abandoned(ctx, impl):
+    """calls that are closed without a return value, end to end: a C++ function that throws, --estimate-return, and a
+    thread that ends in pthread_exit() - under -A/-R.  The call shows its arguments and no return value, and every
+    record behind it is still decoded (replay and dump to the end, no "invalid rstack")"""
+    r = ctx.rng
+    bad, bias, k, arg = r.randrange(2, 5), r.choice([100, -7, 1 << 33, 0xffff]), r.choice([7, -3, 1000001]), r.choice([11, 200, -6])
+    d = os.path.join(ctx.scratch, "e2e-abandoned")
+    shutil.rmtree(d, ignore_errors=True)
+    os.makedirs(d)
+    uft = os.path.join(impl.objdir, "uftrace")
+    want_throw = ["main() {"]
+    for i in range(1, 6):
+        want_throw += ['  check(%d, %d, "round");' % (i, bias)] if i == bad else \
+            ['  check(%d, %d, "round") {' % (i, bias), "    twice() = %d;" % (2 * i), "  } = %d;" % (2 * i + bias)]
+    want_throw.append("}")
+    progs = [
+        ("throw", "t.cpp", ["g++"], E2E_THROW_PROG % {"bad": bad, "bias": bias}, [],
+         ["-A", "check@arg1/i64,arg2/i64,arg3/s", "-R", "check@retval/i64", "-R", "twice@retval/i64"], ["-F", "main"],
+         want_throw),
+        ("estimate-return", "e.c", ["gcc"], E2E_EST_PROG % {"k": k}, ["--estimate-return"],
+         ["-A", "value@arg1/i64,arg2/i64,arg3/s", "-R", "value@retval/i64"], ["-F", "main"],
+         ["main() {"] + ['  value(%d, %d, "est");' % (i, k) for i in (1, 2, 3)] + ["}"]),
+        ("pthread_exit", "x.c", ["gcc", "-pthread"], E2E_PEXIT_PROG % {"arg": arg}, [],
+         ["-A", "work@arg1/i64,arg2/i64", "-A", "leave@arg1/i64,arg2/s", "-R", "work@retval/i64", "-R", "leave@retval/i64",
+          "-A", "after@arg1/i64", "-R", "after@retval/i64"], ["-F", "work", "-F", "after"],
+         # (libmcount writes the entries of the thread's open calls and no exit record: replay leaves them open)
+         ["work(5, %d) {" % arg, '  leave(%d, "bye") {' % (5 + arg), "after(%d) = %d;" % (5 + arg, 6 + arg)]),
+    ]
+    for variant, src, cc, text, ropts, specs, fopts, want in progs:
+        open(os.path.join(d, src), "w").write(text)
+        exe = os.path.join(d, variant)
+        q = subprocess.run(cc + ["-pg", "-g", "-O0", "-o", exe, os.path.join(d, src)], capture_output=True, text=True, timeout=180)
+        if q.returncode != 0:
+            raise RuntimeError("program for the abandoned calls (%s) does not compile: %s" % (variant, q.stderr[-800:]))
+        plain = subprocess.run([exe], capture_output=True, timeout=30, cwd=d)
+        data = os.path.join(d, "data-" + variant)
+        opts = ["--no-libcall"] + ropts + specs
+        p = subprocess.run(["timeout", "60", uft, "record", "--no-pager", "--no-event", "--libmcount-path=" + impl.objdir]
+                           + opts + ["-d", data, exe], capture_output=True, timeout=90, cwd=d)
+        ctx.case(key=("e2e-abandoned", variant), tags=["e2e:abandoned:" + variant])
+        problem = None
+        if p.returncode != 0 or p.stdout != plain.stdout or b"terminated by signal" in p.stderr:
+            problem = "the traced program does not run to its end with its own output: rc=%d stdout=%r stderr=%r" % (
+                p.returncode, p.stdout[-200:], p.stderr[-300:])
+        else:
+            rp = subprocess.run(["timeout", "60", uft, "replay", "--no-pager", "-f", "none", "--no-comment"] + fopts
+                                + ["-d", data], capture_output=True, timeout=90)
+            got = rp.stdout.decode("latin-1").split("\n\nuftrace stopped tracing with remaining functions")[0]
+            got = got.rstrip("\n").split("\n")
+            dp = subprocess.run(["timeout", "60", uft, "dump", "--no-pager", "-d", data], capture_output=True, timeout=90)
+            if got != want:
+                problem = "replay shows %r, expected %r (stderr %r)" % (got, want, rp.stderr[-200:])
+            elif rp.returncode != 0 or b"invalid rstack" in rp.stderr + dp.stderr or dp.returncode != 0:
+                problem = "the records behind the call are not decoded: replay rc=%d %r, dump rc=%d %r" % (
+                    rp.returncode, rp.stderr[-200:], dp.returncode, dp.stderr[-200:])
+        if problem:
+            ctx.violation("C09 violated end to end (a call that is closed without a return value, %s): %s"
+                          % (variant, problem), {"mode": "e2e-abandoned", "variant": variant, "program": text,
+                                                 "record_options": opts}, True)
+
+
 E2E_WITNESSES = [
     ("autoargs-complex",
      {"name": "g1", "types": ["double _Complex", "const char *", "signed char"], "rtype": "void",
@@ -1994,7 +2205,7 @@ def prepare(impl, cases):
 def public(c):
     """JSON-able replay form of a case"""
     keep = ("specs", "rspecs", "groups", "regs", "stack", "ret", "xmm0", "strings", "objs", "slots", "actual", "ractual",
-            "tags", "skip_judge")
+            "tags", "skip_judge", "abandoned")
     return {k: c[k] for k in keep if k in c}
 
 
@@ -2027,7 +2238,9 @@ def run_batch_checked(ctx, impl, b):
 def run_cases_through(ctx, impl, cases, name):
     """execute, evaluate; returns (batches, res)"""
     prepare(impl, cases)
-    todo = [cases[i:i + 31] for i in range(0, len(cases), 31)]
+    todo = []
+    for part in ([c for c in cases if not c.get("abandoned")], [c for c in cases if c.get("abandoned")]):
+        todo += [part[i:i + 31] for i in range(0, len(part), 31)]
     batches = []
     while todo:
         b = todo.pop(0)
@@ -2208,11 +2421,18 @@ def run(ctx):
             c["actual"] += [["str", 0], ["int", c["regs"][2]]]
             cases.append(c)
     for _ in range(ctx.n(290, 4200)):
-        cases.append(g.call())
+        c = g.call()
+        # one call in twelve is closed without a return value (as by exception unwinding / pthread_exit / an estimated
+        # return): its arguments are shown, a return value is not, and the records behind it decode
+        if ctx.rng.randrange(12) == 0:
+            c["abandoned"] = True
+            c["tags"].append("abandoned")
+        cases.append(c)
     batches, res = run_cases_through(ctx, impl, cases, "cases")
     count_cases(ctx, [c for b in batches for c in b])
     verdict(ctx, batches, res)
     e2e_pointers(ctx, impl)
+    e2e_abandoned(ctx, impl)
     found = e2e(ctx, impl)
     defect_witnesses(ctx, impl, found)
 
